@@ -33,6 +33,117 @@ theorem C06_guard_consistent (s : State) (idx : Nat) (o : TxOut) (h : s.us[idx]?
     cases h
   simp [hcb, hlt, h]
 
+/-! ## how the unspents get populated -/
+
+/-- C06.unspents_from_db_sound: when `unspents_from_db` returns, the list has one entry per input, and entry `k` is
+exactly the output the database holds for input `k` (`dbOutput`: the stored transaction reports the hash it is filed
+under and has an output at `previous_index`) — `None` for a coinbase input and whenever the database has no such
+output.  No other value (in particular no placeholder output) is ever recorded. -/
+theorem C06_unspents_from_db_sound (db : TxDb) (ign : Bool) :
+    ∀ (ins : List TxIn) (us : List (Option TxOut)), unspentsFromDb db ign ins = .ok us →
+      us.length = ins.length ∧
+      ∀ (k : Nat) (t : TxIn), ins[k]? = some t → us[k]? = some (if t.isCoinbase then none else dbOutput db t) := by
+  intro ins
+  induction ins with
+  | nil =>
+    intro us h
+    simp only [unspentsFromDb] at h
+    cases h
+    exact ⟨rfl, by intro k t hk; simp at hk⟩
+  | cons a as ih =>
+    intro us h
+    unfold unspentsFromDb at h
+    -- the head entry
+    have hhead : ∀ u, (if a.isCoinbase then (.ok none : Except PopErr (Option TxOut))
+        else match db a.prevHash with
+          | some (h', outs) =>
+            if h' = a.prevHash then
+              match pyIndex outs a.prevIndex with
+              | some o => .ok (some o)
+              | none => .error .indexError
+            else if ign then .ok none else .error .keyError
+          | none => if ign then .ok none else .error .keyError) = .ok u →
+        u = (if a.isCoinbase then none else dbOutput db a) := by
+      intro u hu
+      by_cases hc : a.isCoinbase = true
+      · simp only [hc, if_true] at hu ⊢
+        cases hu; rfl
+      · simp only [hc, Bool.false_eq_true, if_false] at hu ⊢
+        unfold dbOutput
+        cases hd : db a.prevHash with
+        | none =>
+          simp only [hd] at hu
+          split at hu
+          · cases hu; rfl
+          · cases hu
+        | some p =>
+          obtain ⟨h', outs⟩ := p
+          simp only [hd] at hu ⊢
+          by_cases hh : h' = a.prevHash
+          · simp only [hh, if_true] at hu ⊢
+            cases hp : pyIndex outs a.prevIndex with
+            | none => simp [hp] at hu
+            | some o => simp only [hp] at hu; cases hu; rfl
+          · simp only [hh, if_false] at hu ⊢
+            split at hu
+            · cases hu; rfl
+            · cases hu
+    simp only at h
+    split at h
+    · cases h
+    · rename_i u hu
+      split at h
+      · cases h
+      · rename_i us' hus
+        cases h
+        obtain ⟨hl, hk⟩ := ih us' hus
+        have hu' := hhead u hu
+        refine ⟨by simp [hl], ?_⟩
+        intro k t hkt
+        cases k with
+        | zero =>
+          simp only [List.getElem?_cons_zero, Option.some.injEq] at hkt ⊢
+          subst hkt
+          exact hu'
+        | succ k =>
+          simp only [List.getElem?_cons_succ] at hkt ⊢
+          exact hk k t hkt
+
+/-- C06.unknown_output_never_valid: after `unspents_from_db`, an input whose spent output does not exist in the source
+data — no transaction under that hash, a transaction reporting another hash, or an index at or beyond its outputs — is
+refused by `is_solution_ok` whatever its scriptSig and whatever the interpreter would say -/
+theorem C06_unknown_output_never_valid (V : VM) (c : Coin) (db : TxDb) (ign : Bool) (tx : Tx) (us : List (Option TxOut))
+    (h : unspentsFromDb db ign tx.ins = .ok us) (idx : Nat) (t : TxIn) (ht : tx.ins[idx]? = some t)
+    (hno : dbOutput db t = none) :
+    isSolutionOk V c ⟨tx, us⟩ idx = .ok false := by
+  apply C06_missing_unspent_false
+  have := (C06_unspents_from_db_sound db ign tx.ins us h).2 idx t ht
+  show us[idx]?.join = none
+  rw [this]
+  cases t.isCoinbase <;> simp [hno]
+
+/-- C06.from_db_index_error: a source transaction that is present under the right hash but has no output at
+`previous_index` makes `unspents_from_db` raise for the first such input (nothing is recorded), even with `ignore_missing` -/
+theorem C06_from_db_index_error (db : TxDb) (ign : Bool) (t : TxIn) (ts : List TxIn) (outs : List TxOut)
+    (hc : t.isCoinbase = false) (hd : db t.prevHash = some (t.prevHash, outs)) (hi : pyIndex outs t.prevIndex = none) :
+    unspentsFromDb db ign (t :: ts) = .error .indexError := by
+  unfold unspentsFromDb
+  simp [hc, hd, hi]
+
+/-- C06.set_unspents_length: `set_unspents` refuses a list of the wrong length, and otherwise records it as given: a
+`None` entry stays unknown -/
+theorem C06_set_unspents (V : VM) (c : Coin) (s : State) (us : List (Option TxOut)) :
+    (us.length ≠ s.tx.ins.length → setUnspents s us = .error .valueError) ∧
+    (∀ s', setUnspents s us = .ok s' → s'.us = us ∧ ∀ idx, us[idx]?.join = none → isSolutionOk V c s' idx = .ok false) := by
+  constructor
+  · intro h; simp [setUnspents, h]
+  · intro s' h
+    unfold setUnspents at h
+    split at h
+    · cases h
+    · cases h
+      exact ⟨rfl, fun idx hn => C06_missing_unspent_false V c _ idx hn⟩
+
 /-! ## the per-call cache -/
 
 theorem runCached_inv {α : Type} (f : Nat → α) : ∀ (hts : List Nat) (cache : List (Nat × α)),
@@ -273,6 +384,9 @@ def exCode : Bytes := [0x76, 0xab, 0x02, 0xab, 0xab, 0xac]
   | .ok (some a), .ok (some b) => a == b | _, _ => false)
 #guard (match committedLegacy exTx exCode 1 0x01, committedLegacy { exTx with ins := exTx.ins.map fun t => { t with script := [] } } exCode 1 0x01 with
   | .ok (some a), .ok (some b) => a == b | _, _ => false)
+#guard (unspentsFromDb (fun h => if h == List.replicate 32 1 then some (h, [⟨5, [0x51]⟩]) else none) true
+    [⟨List.replicate 32 1, 0, [], 0, []⟩, ⟨List.replicate 32 2, 0, [], 0, []⟩] matches .ok [some _, none])
+#guard (unspentsFromDb (fun h => some (h, [⟨5, [0x51]⟩])) true [⟨List.replicate 32 1, 1, [0x51], 0, []⟩] matches .error .indexError)
 #guard runCached (fun ht => ht * 7 + 1) [] [1, 2, 1, 3, 2] = [8, 15, 8, 22, 15]
 #guard (isSolutionOk (fun _ _ => .ok) .btc ⟨exTx, [none, some ⟨1, []⟩]⟩ 0 matches .ok false)
 #guard (isSolutionOk (fun _ _ => .ok) .btc ⟨exTx, [none, some ⟨1, []⟩]⟩ 2 matches .ok false)
